@@ -582,6 +582,8 @@ theorem s_host (st : St) (n i : Nat) (f : Frame) (hG : G c S st) (hF : FrameOk S
     · simp only [hon, if_true, Bool.not_true, Bool.false_eq_true, if_false]
       have hG2 := hsw _ (hG.addArp n i f.srcIp f.srcMac hF.src)
       split
+      · exact ⟨hG.addArp n i f.srcIp f.srcMac hF.src, hF⟩
+      split
       · rename_i sIp sMac tIp hpl
         have hp := hF.pl
         rw [hpl] at hp
@@ -610,9 +612,17 @@ theorem s_host (st : St) (n i : Nat) (f : Frame) (hG : G c S st) (hF : FrameOk S
       · split
         · exact ⟨hG2.emit_raised _, hF⟩
         · exact ⟨hG2.modOther n _ (fun _ => rfl) (fun _ => rfl), hF⟩
+      · split
+        · split
+          · exact ⟨ih.icmp _ _ _ _ (hG2.modOther n _ (fun _ => rfl) (fun _ => rfl)) trivial, hF⟩
+          · exact ⟨hG2.modOther n _ (fun _ => rfl) (fun _ => rfl), hF⟩
+        · exact ⟨hG2, hF⟩
+      · exact ⟨hG2.modOther n _ (fun _ => rfl) (fun _ => rfl), hF⟩
     · have hoff : nd.on = false := by simpa using hon
       simp only [hoff, Bool.false_eq_true, if_false, Bool.not_false, if_true]
       have hG2 := hsw _ hG
+      split
+      · exact ⟨hG, hF⟩
       split
       · exact ⟨hG2, hF⟩
       · exact ⟨hG2, hF⟩
@@ -628,6 +638,12 @@ theorem s_host (st : St) (n i : Nat) (f : Frame) (hG : G c S st) (hF : FrameOk S
       · split
         · exact ⟨hG2.emit_raised _, hF⟩
         · exact ⟨hG2.modOther n _ (fun _ => rfl) (fun _ => rfl), hF⟩
+      · split
+        · split
+          · exact ⟨ih.icmp _ _ _ _ (hG2.modOther n _ (fun _ => rfl) (fun _ => rfl)) trivial, hF⟩
+          · exact ⟨hG2.modOther n _ (fun _ => rfl) (fun _ => rfl), hF⟩
+        · exact ⟨hG2, hF⟩
+      · exact ⟨hG2.modOther n _ (fun _ => rfl) (fun _ => rfl), hF⟩
   · exact ⟨hG, hF⟩
 
 theorem s_router (st : St) (n i : Nat) (f : Frame) (hG : G c S st) (hF : FrameOk S f) (hR : IsRouter c n) :
@@ -673,6 +689,8 @@ theorem s_router (st : St) (n i : Nat) (f : Frame) (hG : G c S st) (hF : FrameOk
             · split
               · exact ⟨hG2, hF⟩
               · exact ⟨hG2.bump n _, hF⟩
+            · exact ⟨hG2, hF⟩
+            · exact ⟨hG2, hF⟩
             · exact ⟨hG2, hF⟩
             · exact ⟨hG2, hF⟩
         · split
